@@ -1,0 +1,20 @@
+//go:build verif
+// +build verif
+
+/*
+SPDX-License-Identifier: Apache-2.0
+*/
+
+package mediator
+
+import "github.com/hyperledger/aries-framework-go/pkg/didcomm/common/service"
+
+// VerifHandleForward runs the inbound forward handler synchronously (verification hook).
+func (s *Service) VerifHandleForward(msg service.DIDCommMsg) error {
+	return s.handleForward(msg)
+}
+
+// VerifHandleKeylistUpdate runs the inbound keylist-update handler synchronously (verification hook).
+func (s *Service) VerifHandleKeylistUpdate(msg service.DIDCommMsg, myDID, theirDID string) error {
+	return s.handleKeylistUpdate(msg, myDID, theirDID)
+}
